@@ -201,7 +201,6 @@ def regSize (src : Val) : M Val :=
 
 /-- the branch of `Register.__init__` for a slice none of whose parts is an annotated value -/
 def sliceKnownCheck (src start stop step : Val) : M Unit := do
-  if pyEq0 step then throw (.jaqal "zero-step")
   if ← pyLt start (.int 0) then throw (.jaqal "index-out-of-range")
   let size ← regSize src            -- `alias_from.size`
   if size == .none || isAV size then
@@ -222,6 +221,8 @@ def sliceCheck (src start stop step : Val) : M Unit := do
   -- every bound must be a Python int or an annotated value
   if !((isIntLit start || isAV start) && (isIntLit stop || isAV stop) && (isIntLit step || isAV step)) then
     throw (.jaqal "slice-bound-not-an-integer")
+  -- `isinstance(step, int) and step == 0`
+  if isIntLit step && pyEq0 step then throw (.jaqal "zero-step")
   if isAV start || isAV stop || isAV step || isAV src then
     if isAV start && !kindIntOrNone (avKind start) then throw (.jaqal "slice-start-kind")
     if isAV stop && !kindIntOrNone (avKind stop) then throw (.jaqal "slice-stop-kind")
@@ -248,12 +249,17 @@ def indexIntegralCheck : Val → M Unit
   | .flt d => if !d.isIntegral then throw (.jaqal "index-not-integer") else pure ()
   | _ => throw (.jaqal "index-not-integer")
 
+/-- `isinstance(v, float) and not v.is_integer()` -/
+def isFractional : Val → Bool
+  | .flt d => !d.isIntegral
+  | _ => false
+
 /-- the checks of `NamedQubit(name, src, idx)` -/
 def qubitCheck (src idx : Val) : M Unit := do
   if idx == .none || src == .none then throw (.jaqal "invalid-map")
   if isAV idx || isAV src then
     -- `not isinstance(alias_index, (int, float, AnnotatedValue))`
-    if !(idx.isNum || isAV idx) then throw (.jaqal "index-not-integer")
+    if !(idx.isNum || isAV idx) || isFractional idx then throw (.jaqal "index-not-integer")
     if isAV idx && !kindIntOrNone (avKind idx) then throw (.jaqal "index-kind")
     if isAV src && !kindRegOrNone (avKind src) then throw (.jaqal "source-kind")
   else do
@@ -485,7 +491,7 @@ def valStep (get : String → Option Val) (rec : BSx → M Val) (l : List BSx) :
       | [name, size] => do
         let n ← strOf name
         let sz ← rec size
-        mkRegister n sz
+        mkRegister n (asIntegerV sz)
       | _ => throw (.other "ValueError")
     else if cmd = "let" then
       match args with
@@ -512,15 +518,15 @@ def valStep (get : String → Option Val) (rec : BSx → M Val) (l : List BSx) :
         | [idxE] => do
           let n ← strOf name
           let idx ← rec idxE
-          mkQubit n src idx
+          mkQubit n src (asIntegerV idx)
         | [startE, stopE, stepE] => do
           let n ← strOf name
           let start0 ← rec startE
-          let start := if start0 == .none then .int 0 else start0
+          let start := if asIntegerV start0 == .none then .int 0 else asIntegerV start0
           let stop0 ← rec stopE
-          let stop ← defaultStop src stop0
+          let stop ← defaultStop src (asIntegerV stop0)
           let step0 ← rec stepE
-          let step := if step0 == .none then .int 1 else step0
+          let step := if asIntegerV step0 == .none then .int 1 else asIntegerV step0
           mkSlice n src start stop step
         | _ => throw (.jaqal "map-wrong-number-of-arguments")
       | _ => throw (.jaqal "map-wrong-number-of-arguments")
@@ -580,18 +586,52 @@ def buildGateFresh (cfg : Config) (recV : BSx → M Val) (name : String) (args :
   let s ← callDef gd vals
   pure (s, g')
 
+mutual
+/-- `contains_subcircuit` on a statement, given (`look`) which macros contain a subcircuit block -/
+def stmtHasSub (look : String → Bool) : Stmt → Bool
+  | .gate _ gd _ => gd.tag == .macro && look gd.name       -- `contains_subcircuit(gate.gate_def)`
+  | .block _ sub _ body => sub || stmtsHaveSub look body
+  | .loop _ b => stmtHasSub look b
+def stmtsHaveSub (look : String → Bool) : List Stmt → Bool
+  | [] => false
+  | s :: ss => stmtHasSub look s || stmtsHaveSub look ss
+end
+
+/-- `contains_subcircuit(gate_context.get(name))`, by value: the Python follows the `gate_def` pointers of the gate
+statements in a macro body; here the called macro is looked up by name in the gate table (a macro's entry never
+changes once made, and a macro body can only call macros defined before it, so `fuel` = size of the table suffices) -/
+def macroHasSub (g : GCtx) : Nat → String → Bool
+  | 0, _ => false
+  | f+1, name =>
+    match g.lookup name with
+    | some (.macro m) => stmtHasSub (macroHasSub g f) m.body
+    | _ => false
+
+/-- the nesting check of `build_gate`: calling, inside a parallel or subcircuit block, a macro whose expansion would
+put a subcircuit block there -/
+def nestingCheck (ctx : Ctx) (g : GCtx) (name : String) : M Unit :=
+  if (ctx.inSub || ctx.inPar) && macroHasSub g (g.length + 1) name then
+    throw (.jaqal "nesting-subcircuit")
+  else pure ()
+
+/-- `build_gate` from the memo lookup on -/
+def buildGateMemo (cfg : Config) (mode : KeyMode) (ctx : Ctx) (recV : BSx → M Val) (name : String) (gargs : List BSx)
+    (st : St) : M (Stmt × St) :=
+  let key := mkKey mode ctx name gargs
+  match (if mode = .off then Option.none else Memo.find mode.numByValue st.memo key) with
+  | some g => pure (g, st)
+  | Option.none => do
+    let (s, g') ← buildGateFresh cfg recV name gargs st.gctx
+    pure (s, { memo := if mode = .off then st.memo else (key, s) :: st.memo, gctx := g' })
+
 /-- `build_gate` -/
 def buildGate (cfg : Config) (mode : KeyMode) (ctx : Ctx) (recV : BSx → M Val) (args : List BSx) (st : St) :
     M (Stmt × St) :=
   match args with
   | [] => throw (.other "ValueError")
-  | .str name :: gargs =>
-    let key := mkKey mode ctx name gargs
-    match (if mode = .off then Option.none else Memo.find mode.numByValue st.memo key) with
-    | some g => pure (g, st)
-    | Option.none => do
-      let (s, g') ← buildGateFresh cfg recV name gargs st.gctx
-      pure (s, { memo := if mode = .off then st.memo else (key, s) :: st.memo, gctx := g' })
+  | .str name :: gargs => do
+    nestingCheck ctx st.gctx name
+    buildGateMemo cfg mode ctx recV name gargs st
   | _ :: _ => throw (unmodelled "gate-name-not-a-string")
 
 /-! ### Statements, macros -/
